@@ -121,9 +121,13 @@ Proof. pose proof (proj1 (fold_min_le l x)). pose proof (proj1 (fold_max_ge l x)
 (* a quantile level is accepted exactly when it lies in [0, 1]; the aggregator is the percentile 100 q *)
 Theorem quantile_level_spec q : quantile_level_ok XR (Fin q) = true <-> 0 <= q <= 1.
 Proof.
-  unfold quantile_level_ok. cbn. unfold x_ltb, x_lit. cbn. unfold Rltb.
-  destruct (Rlt_dec q 0); destruct (Rlt_dec 1 q); cbn; split; intros; try discriminate; try lra; reflexivity.
+  unfold quantile_level_ok. cbn. unfold x_leb, x_ltb, x_eqb, x_lit. cbn. unfold Rltb, Reqb.
+  destruct (Rlt_dec 0 q); destruct (Rlt_dec q 1); destruct (Req_EM_T q 0); destruct (Req_EM_T q 1); destruct (Req_EM_T 0 q);
+    cbn; split; intros; try discriminate; try lra; reflexivity.
 Qed.
+(* a level that is not a number is rejected too (it passed the pair of strict comparisons of the pinned code) *)
+Theorem quantile_level_nan_rejected : quantile_level_ok XR NaN = false.
+Proof. reflexivity. Qed.
 Theorem agg_Quantile_is_percentile q v : agg_Quantile XR (Fin q) v = vpercentile XR v (Fin (q * 100)).
 Proof. reflexivity. Qed.
 Theorem agg_Iqr_is_p75_minus_p25 v :
